@@ -33,9 +33,7 @@ var lenOpenEnded = []string{`{"id": @catId`, `[1, @a`, `"abc`, `12`, `{"a": 1 //
 func lenOf(text string, warm []string) (uint, error) {
 	s := jschema.New("root", text)
 	if len(warm) > 0 {
-		for n, t := range model.SupportTypes {
-			_ = s.AddType(n, jschema.New(n, t))
-		}
+		eachSupport(model.SupportTypes, func(n, t string) bool { _ = regSupport(s, n, t); return true })
 		_ = warmUp(s, warm)
 	}
 	return s.Len()
@@ -54,9 +52,7 @@ type lenObs struct {
 
 func lenVerdictAST(text string) (string, string) {
 	s := jschema.New("root", text)
-	for n, t := range model.SupportTypes {
-		_ = s.AddType(n, jschema.New(n, t))
-	}
+	eachSupport(model.SupportTypes, func(n, t string) bool { _ = regSupport(s, n, t); return true })
 	err := s.Check()
 	if err != nil {
 		return fmt.Sprintf("rejected-%d", errCode(err)), ""
